@@ -180,3 +180,20 @@ Proof.
   - destruct i; cbn [consume c_paxes]; try reflexivity. unfold memdz. cbn [existsb fst snd].
     cbn in Hk. rewrite (Z.eqb_sym a0 a) in Hk. rewrite andb_comm in Hk. rewrite Hk. reflexivity.
 Qed.
+
+(* the raw read used for the held-input suppression: nothing consumed, no UI flag *)
+Lemma read_raw r dev i : reader_value r consumed_reset dev i = spec_read r false dev i.
+Proof.
+  unfold consumed_reset.
+  destruct i as [k m|b m|m|m|b|a];
+    cbn [reader_value spec_read c_ui_mouse c_keys c_mbuttons c_motion c_wheel c_pbuttons c_paxes memz existsb memdz];
+    rewrite ?mod_keys_pressed_nomods by reflexivity.
+  - unfold bval. rewrite andb_true_r. reflexivity.
+  - unfold bval. rewrite andb_true_r. reflexivity.
+  - rewrite orb_false_r. destruct (mods_down (r_keys r) m); reflexivity.
+  - rewrite orb_false_r. destruct (mods_down (r_keys r) m); reflexivity.
+  - destruct dev as [id|]; reflexivity.
+  - destruct dev as [id|].
+    + unfold pad_by_id. destruct (find (fun p => Z.eqb (pad_id p) id) (r_pads r)); reflexivity.
+    + f_equal. apply find_axis_go.
+Qed.
